@@ -712,6 +712,9 @@ class Emitter:
                 if r['name'] == 'operator[]' and re.match(r'(const )?std::array<', a0t):
                     self.hit('std::array::operator[] -> array subscript')
                     return '%s[%s]' % (self.e(n['inner'][1]), self.e(n['inner'][2]))
+                if r['name'] == 'operator[]' and re.match(r'(const )?std::vector<', a0t) and self.vec_view_field(n['inner'][1]) is not None:
+                    self.hit('std::vector field kept as a read-only view {data, size}: operator[]')
+                    return '%s__data[%s]' % (self.e(self.vec_view_field(n['inner'][1])), self.e(n['inner'][2]))
                 if r['name'] == 'operator[]' and re.match(r'(const )?std::vector<', a0t):
                     self.hit('std::vector::operator[] -> array subscript on the view')
                     base = self.e(n['inner'][1])
@@ -763,8 +766,21 @@ class Emitter:
             return '%s(%s)' % (self.fname(key), ', '.join(self.args(info['node'], n['inner'][1:])))
         return '%s(%s)' % (self.fname(key), ', '.join([obj] + self.args(info['node'], n['inner'][1:])))
 
+    def vec_view_field(self, n):
+        """n is (after parens / implicit casts) a MemberExpr naming a std::vector field that the job asked to keep as a read-only view"""
+        while n.get('kind') in ('ParenExpr', 'ImplicitCastExpr'):
+            n = n['inner'][0]
+        if n.get('kind') == 'MemberExpr' and n.get('name') in (self.hooks.get('vector_view_fields') or ()):
+            return n
+        return None
+
     def library_member_call(self, me, n):
         bt = qt(me['inner'][0]['type'])
+        vf = self.vec_view_field(me['inner'][0])
+        if vf is not None and len(n['inner']) == 1 and me.get('name') in ('empty', 'size', 'front'):
+            self.hit('std::vector field kept as a read-only view {data, size}: .%s()' % me.get('name'))
+            b = self.e(vf)
+            return {'empty': '(%s__size == 0)', 'size': '%s__size', 'front': '%s__data[0]'}[me['name']] % b
         if me.get('name') == 'count' and 'std::chrono::duration' in bt:
             self.hit('std::chrono duration .count() -> verif_elapsed_ms() (non-negative nondeterministic clock reading)')
             self.bindings_used['elapsed'] = ('elapsed', '')
@@ -785,6 +801,8 @@ class Emitter:
             return False
         if n.get('name') in (self.hooks.get('drop_fields') or ()):
             return True
+        if n.get('name') in (self.hooks.get('vector_view_fields') or ()):
+            return False
         key = qt(t)
         if key in self._field_ok:
             return not self._field_ok[key]
@@ -1292,7 +1310,8 @@ class Emitter:
                 if m:
                     b += '  __CPROVER_havoc_slice(%s, %s);\n' % (m.group(1), m.group(2))
                     continue
-                b += '  { __typeof__(%s) verif_nd_%d; %s = verif_nd_%d; }\n' % (t, n, t, n)
+                # typed nondeterministic value; the wrapper struct makes the same line work for array-typed targets
+                b += '  { struct { __typeof__(%s) v; } verif_nd_%d; *(__typeof__(verif_nd_%d) *)&(%s) = verif_nd_%d; }\n' % (t, n, n, t, n)
                 n += 1
         if rts != 'void':
             b += '  %s verif_ret;\n' % rts
@@ -1445,6 +1464,14 @@ class Emitter:
                 try:
                     if c['name'] in (self.hooks.get('drop_fields') or ()):
                         raise Unsupported('dropped on request')
+                    if c['name'] in (self.hooks.get('vector_view_fields') or ()):
+                        m = re.fullmatch(r'std::vector<(.*?)(, std::allocator<.*>)?>', qt(c['type']))
+                        if not m:
+                            raise Drift('%s::%s is no longer a std::vector' % (name, c['name']))
+                        self.hit('std::vector field kept as a read-only view {data, size}')
+                        fields.append('const %s *%s__data' % (self.ctype_s(m.group(1)), c['name']))
+                        fields.append('size_t %s__size' % c['name'])
+                        continue
                     fd = self.decl(c['type'], c['name'])
                     if 'VECVIEW' in fd:
                         raise Unsupported('vector member')
